@@ -27,6 +27,8 @@ def validate(ctx, events, table, label):
 
 def run(ctx, prop="C08"):
     ctx.mc("FzfPipeline", "MC_Pipeline_quick.cfg" if ctx.quick else "MC_Pipeline.cfg", timeout=1700, workers=8)
+    # cross-module lemmas: the Holds table / query lattice of the concurrent model means what FzfQuery.Matches says
+    ctx.tlc("Fzf", "MC_Fzf.cfg", workers=2, timeout=600, label="root-lemmas")
     race = prop == "C13"
     if not ctx.replay:
         # E binding: TLC-enumerated matcher schedules with gate-forced cancellation points
